@@ -310,7 +310,7 @@ func runC08(cfg *vh.Config) error {
 	}
 	// messages of the schemas generated for this run (compiled j5s packages, raw descriptors)
 	if gen := targets[nFixed:]; len(gen) > 0 {
-		for i := 0; i < cfg.Scale(300, 4000); i++ {
+		for i := 0; i < cfg.Scale(400, 4000); i++ {
 			t := vh.Pick(r, gen)
 			g := &msgGen{r: r, maxDepth: r.Range(1, 4), fieldPct: vh.Pick(r, []int{20, 40, 70}), maxEntries: r.Range(1, 3), emptySubs: vh.Pick(r, []int{0, 10, 30}), wide: r.Chance(15)}
 			m := t.New()
